@@ -2859,7 +2859,10 @@ class KmipEngine(object):
 
         # TODO: need to set Compromise Date attribute or Deactivation Date
         # attribute
-        if revocation_code.value is enums.RevocationReasonCode.KEY_COMPROMISE:
+        if revocation_code.value in [
+            enums.RevocationReasonCode.KEY_COMPROMISE,
+            enums.RevocationReasonCode.CA_COMPROMISE
+        ]:
             if managed_object.state == enums.State.DESTROYED:
                 managed_object.state = enums.State.DESTROYED_COMPROMISED
             else:
@@ -2868,7 +2871,7 @@ class KmipEngine(object):
             if managed_object.state != enums.State.ACTIVE:
                 raise exceptions.IllegalOperation(
                     "The object is not active and cannot be revoked with "
-                    "reason other than KEY_COMPROMISE"
+                    "reason other than KEY_COMPROMISE or CA_COMPROMISE"
                 )
             else:
                 managed_object.state = enums.State.DEACTIVATED
